@@ -105,7 +105,7 @@ fn gen_c21(rng: &mut Rng, regime: &str, tier: Tier) -> Value {
         }
         steps.push(json!({"op": "tick", "n": 1}));
     }
-    json!({"regime": regime, "vars": nvars, "max_queue": 1000, "tseed": rng.next_u64() >> 12, "steps": steps})
+    json!({"regime": regime, "vars": nvars, "max_queue": 1000, "second_conn": rng.chance(0.15), "tseed": rng.next_u64() >> 12, "steps": steps})
 }
 
 fn gen_c24(rng: &mut Rng, tier: Tier) -> Value {
